@@ -970,6 +970,14 @@ ind_harness!(i_adv_max_long, ind_advance(Kind::Max, 140000));
 // @assume BTreeMap modelled by harness/model/vmap.rs; single pending timer
 ind_harness!(i_adv_fixed_long, ind_advance(Kind::Fixed, 140000));
 
+// @verif prop=C07,C08,C09,C10 tier=thorough timeout=3400 mem=20 unwind=5 unwindset=::advance\.1$:7,::advance\.0$:3
+// @enc Timers::advance (Min branch) rounded_75point
+// @sym any INV(min) pre-state; target up to 140000 s ahead
+// @bound one advance of <= 140000 s (<= 5 internal steps) from an arbitrary INV state
+// @stub FnOnceQueue::push_box -> callback invoked at once
+// @assume BTreeMap modelled by harness/model/vmap.rs; single pending timer
+ind_harness!(i_adv_min_long, ind_advance(Kind::Min, 140000));
+
 // ---- update / delete / stale-key steps
 // @verif prop=C07,C08,C09,C10 tier=quick timeout=1200 mem=10 unwind=5
 // @enc Timers::mod_max
